@@ -2469,6 +2469,14 @@ class BDD(dd._abc.BDD[_Ref]):
         n = len(var2level)
         level_map = dict()
         # level_map[n] = len(self.vars)
+        if levels:
+            # refuse conflicting levels before
+            # declaring any variable
+            for var, i in var2level.items():
+                if var in self.vars:
+                    self._check_var(var, i)
+                else:
+                    self._next_free_level(var, i)
         for var, i in var2level.items():
             if not (0 <= i < n):
                 raise AssertionError((i, n))
